@@ -1,6 +1,7 @@
 package main
 
 import (
+	"math/rand"
 	"bytes"
 	"fmt"
 	"strconv"
@@ -12,7 +13,7 @@ import (
 
 func init() {
 	props["C09"] = &propDef{
-		rule: "cases = random consistent sample tables of a progressive track (1..12 entries per run-length table, N <= 60 samples, chunk sizes 1..7 with description-id changes, ctts v0/v1 incl. zero-count entries, uniform/explicit stsz, stco/co64, stss present/absent/empty, sdtp), built through the real box encoders+decoders (alternating io.Reader and SliceReader paths) or AddEntry constructors; every query is evaluated EXHAUSTIVELY for all sample numbers 1..N, all intervals 1<=a<=b<=N, all chunk numbers and all times 0..total+2 and compared with a naive per-sample expansion; non-trivial = distinct table set with >= 2 stsc entries or >= 2 stts entries",
+		rule: "cases = (0) copied sample data: File.CopySampleData over sample intervals of generated progressive files, both modes, every work-buffer size 1..payload+2; random consistent sample tables of a progressive track (1..12 entries per run-length table, N <= 60 samples, chunk sizes 1..7 with description-id changes, ctts v0/v1 incl. zero-count entries, uniform/explicit stsz, stco/co64, stss present/absent/empty, sdtp), built through the real box encoders+decoders (alternating io.Reader and SliceReader paths) or AddEntry constructors; every query is evaluated EXHAUSTIVELY for all sample numbers 1..N, all intervals 1<=a<=b<=N, all chunk numbers and all times 0..total+2 and compared with a naive per-sample expansion; non-trivial = distinct table set with >= 2 stsc entries or >= 2 stts entries",
 		gen:  genC09,
 		exec: execC09,
 	}
@@ -218,6 +219,9 @@ func jn(l []string) string {
 }
 
 func execC09(req string) string {
+	if strings.HasPrefix(req, "copy ") {
+		return execC09Copy(strings.Fields(req))
+	}
 	f := strings.Fields(req)
 	if len(f) < 9 || f[0] != "stbl" {
 		return "bad-op"
@@ -640,6 +644,7 @@ func genTables(c *Ctx) (*tables, *expanded) {
 
 func genC09(c *Ctx) {
 	genBigC09(c)
+	c09CopiedSampleData(c)
 	nTables := c.N(250, 6000)
 	c.St.Exhaustive = true
 	c.Note("per generated table set: all sample numbers, all intervals a<=b, all chunk numbers, all times 0..total+2 (capped at 4000 distinct times around sample boundaries) are evaluated")
@@ -983,4 +988,119 @@ func checkNrAt(c *Ctx, pre string, e *expanded, x uint64, got string, total uint
 		}
 		c.Fail("C09-sample-at-time", "GetSampleNrAtTime != least sample starting at or after the time", pre+fmt.Sprintf("nratall %d  (time %d)", x, x), got, w)
 	}
+}
+
+// c09CopiedSampleData: the "copied sample data" query of the statement: File.CopySampleData over sample intervals of
+// generated progressive files, in-memory and lazy mode, with EVERY work-buffer size from 1 to the payload size + 2 (a
+// chunk ending exactly at the end of the buffer, a buffer smaller than a sample, larger than everything), against the
+// bytes the generator wrote.
+func c09CopiedSampleData(c *Ctx) {
+	nf := c.N(12, 120)
+	for it := 0; it < nf; it++ {
+		sub := c.R.Int63()
+		pf := c09CopyFile(sub)
+		fe, err1 := mp4.DecodeFile(bytes.NewReader(pf.bytes))
+		fl, err2 := mp4.DecodeFile(bytes.NewReader(pf.bytes), mp4.WithDecodeMode(mp4.DecModeLazyMdat))
+		if err1 != nil || err2 != nil {
+			c.Fail("C09-copied-data", "generated progressive file does not decode", fmt.Sprintf("copy file#%d", it), fmt.Sprint(err1, err2), "")
+			continue
+		}
+		for ti, t := range pf.tracks {
+			n := len(t.data)
+			total := 0
+			for _, d := range t.data {
+				total += len(d)
+			}
+			maxWS := total + 2
+			if maxWS > 80 {
+				maxWS = 80
+			}
+			for a := 1; a <= n; a++ {
+				for b := a; b <= n; b++ {
+					if n > 5 && c.R.Intn(3) != 0 {
+						continue
+					}
+					var want []byte
+					for k := a; k <= b; k++ {
+						want = append(want, t.data[k-1]...)
+					}
+					for ws := 0; ws <= maxWS; ws++ {
+						var work []byte
+						if ws > 0 {
+							work = make([]byte, ws)
+						}
+						for mode, f := range []*mp4.File{fe, fl} {
+							var buf bytes.Buffer
+							var rs *bytes.Reader
+							if mode == 1 {
+								rs = bytes.NewReader(pf.bytes)
+							}
+							var err error
+							p := safe(func() {
+								if rs != nil {
+									err = f.CopySampleData(&buf, rs, f.Moov.Traks[ti], uint32(a), uint32(b), work)
+								} else {
+									err = f.CopySampleData(&buf, nil, f.Moov.Traks[ti], uint32(a), uint32(b), work)
+								}
+							})
+							c.Eval("")
+							got := buf.Bytes()
+							if p != "" || err != nil || !bytes.Equal(got, want) {
+								c.Fail("C09-copied-data", "File.CopySampleData over a sample interval != the samples' bytes",
+									fmt.Sprintf("copy %d %d %d %d %d %d", sub, ti+1, a, b, ws, mode),
+									clip(fmt.Sprintf("%s err=%v %s", p, err, hx(got))), clip(hx(want)))
+							}
+						}
+					}
+					c.Count("copied-data interval")
+				}
+			}
+		}
+	}
+}
+
+func c09CopyFile(sub int64) *progFile {
+	r := rand.New(rand.NewSource(sub))
+	return genProgFile(r, 1+r.Intn(2), 9)
+}
+
+// execC09Copy replays "copy <sub-seed> <track> <a> <b> <workspace> <lazy>"
+func execC09Copy(f []string) string {
+	if len(f) != 7 {
+		return "bad-op"
+	}
+	var sub int64
+	fmt.Sscan(f[1], &sub)
+	pf := c09CopyFile(sub)
+	ti, a, b, ws, lazy := atoi(f[2])-1, atoi(f[3]), atoi(f[4]), atoi(f[5]), f[6] == "1"
+	var file *mp4.File
+	var err error
+	var rs *bytes.Reader
+	if lazy {
+		file, err = mp4.DecodeFile(bytes.NewReader(pf.bytes), mp4.WithDecodeMode(mp4.DecModeLazyMdat))
+		rs = bytes.NewReader(pf.bytes)
+	} else {
+		file, err = mp4.DecodeFile(bytes.NewReader(pf.bytes))
+	}
+	if err != nil || ti < 0 || ti >= len(file.Moov.Traks) {
+		return "err"
+	}
+	var work []byte
+	if ws > 0 {
+		work = make([]byte, ws)
+	}
+	var buf bytes.Buffer
+	var out string
+	p := safe(func() {
+		if rs != nil {
+			err = file.CopySampleData(&buf, rs, file.Moov.Traks[ti], uint32(a), uint32(b), work)
+		} else {
+			err = file.CopySampleData(&buf, nil, file.Moov.Traks[ti], uint32(a), uint32(b), work)
+		}
+		out = fmt.Sprintf("err=%v %s", err, hx(buf.Bytes()))
+	})
+	if p != "" {
+		return p
+	}
+	return out
 }
